@@ -168,7 +168,7 @@ def run(ctx):
     if mine:
         ti, i, text = mine[0]
         ops = traces[ti][1]
-        small = shrink.ddmin(ops, monitor_fails, keep_first=1, max_tests=600) if monitor_fails(ops) else ops
+        small = shrink.ddmin(ops, monitor_fails, keep_first=2, max_tests=600) if monitor_fails(ops) else ops
         _o, ans = run_impl_batch(iexe, small)
         w = router_mon.evaluate(small, ans)
         msgs = [t for (_i, p, t) in w.v if p == prop] or [text]
@@ -182,7 +182,7 @@ def run(ctx):
         def diverges(o):
             orc, ans = run_impl_batch(iexe, o)
             return first_divergence(ans, run_model(mexe, o, orc)) is not None
-        small = shrink.ddmin(ops[: d + 1], diverges, keep_first=1, max_tests=400) if diverges(ops[: d + 1]) else ops[: d + 1]
+        small = shrink.ddmin(ops[: d + 1], diverges, keep_first=2, max_tests=400) if diverges(ops[: d + 1]) else ops[: d + 1]
         orc, ans = run_impl_batch(iexe, small)
         mod = run_model(mexe, small, orc)
         content = "# %s: implementation and Coq model (Router.Model) disagree; no violation of the property itself was exhibited\n" % prop
